@@ -5,6 +5,7 @@ import FemtoVerif.Model.Trench
 import FemtoVerif.Model.TrenchProg
 import FemtoVerif.Model.Waveguide
 import FemtoVerif.Model.Gcode
+import FemtoVerif.Model.Sampling
 import Mathlib.Tactic.Ring
 import Mathlib.Algebra.Order.Field.Rat
 
